@@ -4,7 +4,7 @@
    leaves behind -- after success and after an injected failure -- is decided by the whole-IR validator of harness/c05.py. *)
 From Coq Require Import ZArith List Bool Arith.
 From GR Require Import Base.Result Adt.RefCache Adt.RefCacheProofs Adt.RetCache Adt.RetCacheProofs
-     IR.State IR.Modify IR.Edit IR.BytesProofs IR.Closed IR.Flow.
+     IR.State IR.Modify IR.Edit IR.BytesProofs IR.Closed IR.Flow IR.CfgClosed.
 Import ListNotations.
 Open Scope Z_scope.
 
@@ -44,3 +44,32 @@ Theorem C05_no_edge_at_a_removed_block :
     ((exists e, In e (out_edges s b) /\ is_call e = true) -> ~ has_ret s b) ->
     forall x, In x (cfg s') -> nid (src x) <> b /\ nid (tgt x) <> b.
 Proof. exact remove_block_leaves_no_edge. Qed.
+
+(* ===== the CFG stays closed through the primitives of the modify layer =====
+   Closed s: every edge of the CFG starts at a block that is in an interval of the module and ends at such a block or at a proxy of
+   the module.  split_block, join_blocks (code blocks) and remove_block -- whether the block is taken out or has to stay behind as an
+   empty block with a fallthrough to a fresh proxy -- keep it.  Side conditions: the blocks named are in the module, the block behind
+   a removed block is another block of the module, and the removed block does not both call and return. *)
+Theorem C05_split_block_keeps_the_cfg_closed :
+  forall s b off nb ft s', split_block s b off = Ok (nb, ft, s') -> Closed s -> live s (NB b) -> Closed s'.
+Proof. exact Closed_split_block. Qed.
+Theorem C05_join_blocks_keeps_the_cfg_closed :
+  forall s b1 b2 s', join_blocks s b1 b2 = Ok (Some s') -> Closed s -> b1 <> b2 -> live s (NB b1) -> is_code s b2 = true -> Closed s'.
+Proof. exact Closed_join_blocks. Qed.
+Theorem C05_remove_block_keeps_the_cfg_closed :
+  forall s b tp r s',
+    remove_block s b tp = Ok (r, s') -> Closed s -> live s (NB b) -> is_code s b = true -> (b < next s)%nat ->
+    (forall n, snd (adjacent_blocks s b) = Some n -> live s (NB n) /\ n <> b) ->
+    ((exists e, In e (out_edges s b) /\ is_call e = true) -> ~ has_ret s b) ->
+    Closed s'.
+Proof. exact Closed_remove_block. Qed.
+(* the hypotheses are satisfiable: a two-block module whose CFG is closed *)
+Example C05_closed_example :
+  let s := mk_st [(0%nat, mk_blk KCode (Some 100%nat) 0 1); (1%nat, mk_blk KCode (Some 100%nat) 1 1)] [(100%nat, mk_ival 0 [144; 195] [])] [(0%nat, [0%nat; 1%nat])]
+                 (RefCache.mk_rc [] []) [mk_edge' (NB 0%nat) (NB 1%nat) ET_FALLTHROUGH; mk_edge' (NB 1%nat) (NP 7%nat) ET_RETURN] [7%nat] [] [] [] [] [] [[]; []; []] [] [[]; []; []; []] None 900 in
+  Closed s /\ live s (NB 0%nat).
+Proof.
+  cbn zeta. split.
+  - intros e [<-|[<-|[]]]; cbn; repeat split; eauto; try (eexists; split; [reflexivity|discriminate]); left; reflexivity.
+  - cbn. eexists; split; [reflexivity|discriminate].
+Qed.
